@@ -357,13 +357,14 @@ PROPS['C11'] = dict(
 )
 # ------------------------------------------------------------------ C12
 def c12_compare(c, a, m):
+    if c[0] == 'H': return c14_compare(c, a, m)
     if c[0] in 'Cc': return a == m
     if c[0] == 'Q': return a == m
     fa, fm = fields(main(a)), fields(main(m))
     if not fa: return 'skip'
     if not fm: return 'mismatch'
     return fa[4] == fm[4]
-c12_compare.obs = lambda c, a: a if c[0] in 'CcQ' else (fields(main(a)) or [None] * 5)[4]
+c12_compare.obs = lambda c, a: a if c[0] in 'CcQH' else (fields(main(a)) or [None] * 5)[4]
 def c12_purls(rng, n):
     for _ in range(n):
         t = gens.random_tuple(rng)
@@ -406,8 +407,8 @@ def c12_builders(rng, n):
             yield f'Q tC:{t1},tC:{t2},tG'
             yield f'Q i:{gens.hx("checksum")}:{gens.hx("md5:00")},tC:{t1},tG,g:{gens.hx("checksum")}'
 PROPS['C12'] = dict(
-    accepts=lambda c: c[0] in 'CcPSBQ',
-    gen=lambda tier, rng: chain(gens.gen_cs(rng, Q(tier, 30000, 400000)), c12_purls(rng, Q(tier, 10000, 100000)), gens.gen_slot(('g',)), c12_builders(rng, 0), (c for c in gens.gen_lengths(('g',)) if 'checksum' in gens.unhx(c.split(' ')[-1]))),
+    accepts=lambda c: c[0] in 'CcPSBQ' or (c[0] == 'H' and any(x in c.split(' ')[1][2:] for x in 'cmob')),
+    gen=lambda tier, rng: chain(gens.gen_cs(rng, Q(tier, 30000, 400000)), c12_purls(rng, Q(tier, 10000, 100000)), gens.gen_slot(('g',)), c12_builders(rng, 0), (c for c in gens.gen_lengths(('g',)) if 'checksum' in gens.unhx(c.split(' ')[-1])), (c for c in gens.gen_shape(rng, 0) if any(x in c.split(' ')[1][2:] for x in 'cmob'))),
     compare=c12_compare,
     rule='checksum operation sequences (insert / insert_raw / remove over 15 algorithm spellings incl. case variants, titlecase letters, empty and non-ASCII), texts, '
          'PURLs and builders carrying the same entry set in random order and case; entries, canonical text, parse-back and typed decode compared; '
